@@ -86,6 +86,7 @@ func minterLine(m minttypes.Minter) string {
 // accepted-but-extreme parameter values (phases shorter than a block, negative inflation).
 func runMint(seed uint64, n int, out *Out) {
 	extreme := envInt("VERIF_MINT_EXTREME", 0) == 1
+	probeParamsCfg().emit(out) // which validator / clamp variant the tree has (model: Sge.Params over Sge.Mint)
 	for h := 0; h < n; h++ {
 		if skipHist(h) {
 			continue
